@@ -92,7 +92,17 @@ Definition c02_forced_step (pre : ostate) (st : ostep) : list N :=
                          | None => true end) (over_max_types q)) (s_queues (st_obs st))
   then [202] else [].
 
-Definition c02_step (pre : ostate) (st : ostep) : list N := c02_sched_step pre st ++ c02_forced_step pre st.
+(* the same on what the applications hold: kind 203 *)
+Definition c02_held_step (pre : ostate) (st : ostep) : list N :=
+  if existsb (fun q =>
+       negb (forced_queue_change (q_parent q =? 0) (st_op st)) &&
+       existsb (fun k => over_max_held_at (st_obs st) q k &&
+                         match find_queue pre (q_id q) with
+                         | Some q0 => negb (over_max_held_at pre q0 k)
+                         | None => true end) (held_keys (st_obs st) (q_id q))) (s_queues (st_obs st))
+  then [203] else [].
+
+Definition c02_step (pre : ostate) (st : ostep) : list N := c02_sched_step pre st ++ c02_forced_step pre st ++ c02_held_step pre st.
 
 (* ---- C03 ---- *)
 Definition c03_state (s : ostate) : list N :=
